@@ -315,6 +315,10 @@ func decodeStructValueSlice(field reflect.Value, fieldType reflect.StructField, 
 
 	value = strings.Trim(value, strip)
 
+	/* The list replaces what the field held (as every other kind of field
+	 * does), it is not appended to it. */
+	field.Set(reflect.Zero(field.Type()))
+
 	var els []string
 	if delim == " " {
 		/* Blank-separated lists may be folded and padded: split on any run
